@@ -52,6 +52,43 @@ Fixpoint prun (s : Q) (held : nat -> list Z) (progs : nat -> list pop) (sched : 
       (s2, lines ++ more)
   end.
 
+(* the same with a payload that has a destructor: dealloc_id first runs drop_in_place on the slot (a scheduling point of its own: the
+   payload's Drop is hooked), then gives the id back to the free list - never the other way round *)
+Definition K_DROPV : Z := 18.
+Definition L_POOL : Z := 400.
+Definition pgrantD (s : Q) (held : nat -> list Z) (dr : nat -> option Z) (progs : nat -> list pop) (t : nat)
+  : Q * (nat -> list Z) * (nat -> option Z) * (nat -> list pop) * list (list Z) :=
+  if qidle s t then
+    match dr t with
+    | Some v =>
+        let s1 := qstart s t (OpPub v) in let s2 := qstep s1 t in
+        (s2, held, upd dr t None, progs, qobs s1 t :: pemit (qlog s1) (qlog s2))
+    | None =>
+      match progs t with
+      | [] => (s, held, dr, progs, [skip t])
+      | PAlloc :: rest =>
+          let s1 := qstart s t OpCons in let s2 := qstep s1 t in
+          (s2, upd held t (got_of t (qlog s1) (qlog s2) ++ held t), dr, upd progs t rest, qobs s1 t :: pemit (qlog s1) (qlog s2))
+      | PDealloc :: rest =>
+          match held t with
+          | [] => (s, held, dr, upd progs t rest, [acc t 0 K_YIELD 0 (-1) true; ret t 5 0 0])
+          | v :: hs => (s, upd held t hs, upd dr t (Some v), upd progs t rest, [acc t (L_POOL + v) K_DROPV 0 (-1) true])
+          end
+      end
+    end
+  else
+    let s2 := qstep s t in
+    (s2, upd held t (got_of t (qlog s) (qlog s2) ++ held t), dr, progs, qobs s t :: pemit (qlog s) (qlog s2)).
+
+Fixpoint prunD (s : Q) (held : nat -> list Z) (dr : nat -> option Z) (progs : nat -> list pop) (sched : list nat) : Q * list (list Z) :=
+  match sched with
+  | [] => (s, [])
+  | t :: rest =>
+      let '(s1, held1, dr1, progs1, lines) := pgrantD s held dr progs t in
+      let '(s2, more) := prunD s1 held1 dr1 progs1 rest in
+      (s2, lines ++ more)
+  end.
+
 (* `new()`: the constructing thread publishes 0 .. n-1, alone *)
 Fixpoint pfill (s : Q) (ids : list Z) (fuel : nat) : Q :=
   match ids with
@@ -75,4 +112,15 @@ Definition run_pool_fullsync (N origin : Z) (progs : list (list pop)) (sched : l
   let s0 := pfill fsst (fstep N u32) fstart (finit_at (u32 origin)) (ids_upto N) 0 in
   let '(s, lines) := prun fsst (fstep N u32) fstart (fun s t => match fthr s t with FIdle => true | _ => false end) flog fobs
                           s0 (fun _ => []) (pprogs_of progs) sched in
+  concat lines ++ [9; fhead s; ftail s; if flock s then 1 else 0].
+
+Definition run_pooldrop_atomic (N : Z) (progs : list (list pop)) (sched : list nat) : list Z :=
+  let s0 := pfill st (step N u32 i32) start (init_at 0) (ids_upto N) 0 in
+  let '(s, lines) := prunD st (step N u32 i32) start (fun s t => match thr s t with Idle => true | _ => false end) log (obs N u32)
+                           s0 (fun _ => []) (fun _ => None) (pprogs_of progs) sched in
+  concat lines ++ [9; head s; tail s; etail s; dhead s].
+Definition run_pooldrop_fullsync (N : Z) (progs : list (list pop)) (sched : list nat) : list Z :=
+  let s0 := pfill fsst (fstep N u32) fstart (finit_at 0) (ids_upto N) 0 in
+  let '(s, lines) := prunD fsst (fstep N u32) fstart (fun s t => match fthr s t with FIdle => true | _ => false end) flog fobs
+                           s0 (fun _ => []) (fun _ => None) (pprogs_of progs) sched in
   concat lines ++ [9; fhead s; ftail s; if flock s then 1 else 0].
